@@ -308,8 +308,24 @@ func runC17Rerun(c *Ctx, in M) (out interface{}) {
 		}
 		vj.Run()
 	}
-	// settle: every possible re-run chain has ended
-	time.Sleep(time.Duration(last)*time.Millisecond - time.Since(start) + time.Duration(geti(in, "m")+2)*delay + 300*time.Millisecond)
+	// settle: wait until the number of runs has not changed for two retry delays (a pending re-run fires one delay
+	// after the run that scheduled it), at most 20 s — robust against a busy machine
+	_ = last
+	stableSince := time.Now()
+	seen := -1
+	deadline := time.Now().Add(20 * time.Second)
+	for time.Now().Before(deadline) {
+		time.Sleep(50 * time.Millisecond)
+		mu.Lock()
+		n := runs
+		mu.Unlock()
+		if n != seen {
+			seen = n
+			stableSince = time.Now()
+		} else if time.Since(stableSince) > 2*delay+500*time.Millisecond {
+			break
+		}
+	}
 	mu.Lock()
 	defer mu.Unlock()
 	return M{"runs": runs}
